@@ -91,3 +91,43 @@ def c18_6(cx):
         s = nxt[0]
         rew = [x for x in t.calls(r"OccupiedEntry::<'a, K, V, A>::(insert|remove)$") if t.reaches(first[0], x)]
         cx.check(len(rew) >= 2, "the link that would close the cycle is removed or re-pointed", s, key="rewire")
+
+
+@ob("C18.7", ["C18", "C19", "C14"], "who owns a transferred query is resolved by walking the transfer chain; skipping the wrong link (or stopping early) points a waiter's edge at a thread that does not own the lock: missed cycle detection or a wake-up that never comes; resuming bystanders hands `Completed` to threads whose query did not complete; trusting the recorded owner thread after a re-transfer leaves dependents attached to a stale thread", kind="ONLYIF+LOOP (owner resolution, targeted resume)")
+def c18_7(cx):
+    """thread_id_of_transferred_query: the chain is followed in a loop over transferred[current_owner]; the resolved thread is updated with each link's thread EXCEPT for the link whose key equals skip_over; the result is the last thread assigned. unblock_transfer_target resumes exactly the one blocked thread found (swap_remove of that index), not the whole dependents list. transfer_lock's re-transfer arm reports the thread as changed unconditionally."""
+    t = cx.fn(DG + r"thread_id_of_transferred_query$")
+    cx.check(bool(t.back_edges()), "the transfer chain is walked in a loop", body=t, key="owner-loop")
+    # the assignment resolved_thread := next_thread is skipped exactly when next_key == skip_over
+    asg = []
+    for s in t.all_sites():
+        if s.is_term() or s.node()["k"] != "assign" or s.node()["p"]["pj"]:
+            continue
+        try:
+            o = t._origin_def(s, "assign", s.node(), 0, None, ())
+        except Exception:
+            continue
+        if re.search(r"HashMap::<K, V, S(, A)?>::get\(\$1\.transferred, .*\)@Some\.0\.0$", o) and t.blocks[s.bb]["term"]["k"] == "goto":
+            asg.append(s)
+    # keep only assignments inside the loop
+    inloop = [s for s in asg if any(s.bb in t.reachable(succ, "normal") for succ, _ in t.succs(s.bb, "normal"))]
+    cx.sites(inloop, 1, "resolved_thread := next_thread inside the walk")
+    skip = CallIs(r"^std::cmp::PartialEq::eq$", True, [None, r"^\$3$"], desc="Some(next_key) == skip_over")
+    noskip = CallIs(r"^std::cmp::PartialEq::eq$", False, [None, r"^\$3$"], desc="Some(next_key) != skip_over")
+    for s in inloop:
+        cx.only_if(t, s, noskip, "a link's thread is adopted only if the link is not the one to skip")
+    u = cx.fn(DG + r"unblock_transfer_target$")
+    ur = cx.some_calls(u, DG + r"unblock_runtime$", 1, "resume in unblock_transfer_target")
+    for s in ur:
+        in_loop = any(s.bb in u.reachable(succ, "normal") for succ, _ in u.succs(s.bb, "normal"))
+        cx.check(not in_loop, "a hand-over resumes exactly one thread (the new owner), not every waiter of the query", s, key="single-resume")
+        cx.flow(u, cx.arg(s, 1), [r"swap_remove\(.*find_blocked_thread\(.*\)@Some\.0\.1\)$|Vec::<T(, A)?>::swap_remove\("], [], "the thread resumed is the blocked thread that was found", s)
+    tl = cx.fn(DG + r"transfer_lock$")
+    ut = cx.one_call(tl, DG + r"unblock_transfer_target$", "unblock_transfer_target in transfer_lock")
+    ue = cx.one_call(tl, DG + r"update_transferred_edges$", "update_transferred_edges in transfer_lock")
+    # on the re-transfer (Occupied, different owner) path both calls are reached unconditionally: the only way to skip them
+    # is the Vacant arm with an unchanged thread or the no-op early return
+    vac = VariantIn(r"HashMap::<K, V, S(, A)?>::entry\(\$1\.transferred, \$2\)$", {"Vacant"}, desc="first transfer of this query")
+    same = CallIs(r"^std::cmp::PartialEq::eq$", True, [r"OccupiedEntry::<'a, K, V, A>::get\(", r"^tuple\{0: .*, 1: \$4\}$"], desc="same (thread, owner) as before (no-op)")
+    for c, what in ((ut, "the new owner is resumed"), (ue, "dependents are re-pointed")):
+        cx.skipped_only_if(tl, c, [vac, same], "after a RE-transfer %s regardless of the recorded threads (they may be stale)" % what, exits=tl.return_blocks())
